@@ -35,7 +35,9 @@ def cfg(name, mode, **kw):
 BOTH = "{FALSE, TRUE}"
 # --- C08: every outcome in every form through every stack -------------------------------------------------
 cfg("rs_expA.cfg", "exp")
-cfg("rs_expB.cfg", "exp", Stacks="StacksTimes", Outcomes="Out1", MaxTests=1, MaxTimes=3, MaxCalls=9, AllowDone="TRUE", AllowProgress="TRUE")
+cfg("rs_expA0.cfg", "exp", Outcomes="OutFalsy")
+cfg("rs_expB.cfg", "exp", Stacks="StacksTimes", Outcomes="Out1", MaxTests=1, MaxTimes=2, MaxCalls=9, AllowDone="TRUE", AllowProgress="TRUE")
+cfg("rs_expB3.cfg", "exp", Stacks="StacksTimes", Outcomes="Out1", MaxTests=1, MaxTimes=3, MaxCalls=9, AllowDone="TRUE", AllowProgress="TRUE")
 cfg("rs_expB2.cfg", "exp", Stacks="StacksTimes", Outcomes="Out2", MaxTests=2, MaxTimes=2, MaxCalls=10, AllowDone="TRUE", AllowProgress="TRUE")
 cfg("rs_mcA3all.cfg", "mc", Outcomes="Out13", MaxTests=3, MaxCalls=11)
 cfg("rs_mcA3.cfg", "mc", Stacks="StacksCore", Outcomes="Out13", MaxTests=3, MaxCalls=11)
@@ -54,7 +56,9 @@ cfg("rs_expT4.cfg", "exp", Stacks="StacksTags", Outcomes="Out1", TagOps="TagOps4
 cfg("rs_expT5.cfg", "exp", Stacks="StacksTags", Outcomes="Out1", TagOps="TagOps2", MaxTagOps=2, MaxTests=2, MaxRuns=2, MaxCalls=11)
 cfg("rs_mcT.cfg", "mc", Stacks="StacksCore", Outcomes="Out1", TagOps="TagOps4", MaxTagOps=3, MaxCalls=10, AllowSkipNoStart="TRUE")
 # --- deep random behaviours over the full alphabet ---------------------------------------------------------
-cfg("rs_sim.cfg", "sim", Outcomes="Out13", TagOps="TagOpsAll", MaxCalls=24, MaxTests=4, MaxRuns=2, MaxTagOps=5, MaxTimes=4,
+cfg("rs_sim.cfg", "sim", Outcomes="Out20", TagOps="TagOpsAll", MaxCalls=24, MaxTests=4, MaxRuns=2, MaxTagOps=5, MaxTimes=4,
+    AllowStop="TRUE", AllowDone="TRUE", AllowProgress="TRUE", PreFF=BOTH)
+cfg("rs_sim13.cfg", "sim", Outcomes="Out13", TagOps="TagOpsAll", MaxCalls=24, MaxTests=4, MaxRuns=2, MaxTagOps=5, MaxTimes=4,
     AllowStop="TRUE", AllowDone="TRUE", AllowProgress="TRUE", PreFF=BOTH)
 cfg("rs_simFF.cfg", "sim", Stacks="StacksSetFF", Outcomes="Out13", TagOps="TagOps4", MaxCalls=20, MaxTests=4, MaxRuns=2, MaxTagOps=2,
     MaxTimes=2, AllowStop="TRUE", AllowSetFF="TRUE")
